@@ -203,6 +203,7 @@ Section Walk.
     | IModZid m z => is_short_date_spec m = true /\ (exists d, from_short m = Ok d) /\
                      is_zid z = true /\ exists d, from_short (zid_day z) = Ok d
     | ILong d => is_short_date_spec d = false /\ is_zid d = false /\ exists dd, from_long d = Ok dd
+    | IMod m => is_short_date_spec m = true /\ exists d, from_short m = Ok d
     end.
 
   Notation date_of_short := (date_of_short today).
@@ -216,7 +217,99 @@ Section Walk.
     | IModZid m z => st <| s_ids := 2%nat |> <| s_modify := Some (date_of_short m) |> <| s_zid := Some z |>
                         <| s_dates := upd 5 (fun _ => Some (date_of_short (zid_day z))) (s_dates st) |>
     | ILong d => st <| s_ids := 1%nat |> <| s_dates := upd 5 (fun _ => Some (date_of_long d)) (s_dates st) |>
+    | IMod m => st <| s_ids := 1%nat |> <| s_modify := Some (date_of_short m) |>
     end.
+
+  (* after a modify date that stands alone: the next word is the last that could still name the note's ZID *)
+  Definition mod_identity (st : state) : Prop :=
+    s_in_note st = true /\ s_ids st = 1%nat /\ s_modify st <> None.
+  Definition ready (st : state) (ws : list word) : Prop :=
+    past_identity st \/ (mod_identity st /\ match ws with [] => True | w :: _ => word_not_zidb w = true end).
+  Definition after_mod_ok (i : ident) (ws : list word) : Prop := after_mod_okb i ws = true.
+
+  Lemma enter_id_mod txt st : mod_identity st -> is_zid txt = false -> enter_id txt st = Ok (bump st).
+  Proof.
+    intros (Hn & Hi & Hm) Hz. unfold enter_id. rewrite Hn, Hi. cbn. rewrite Hz, andb_false_r. unfold bump. now rewrite Hi.
+  Qed.
+  Lemma past_after_mod st : mod_identity st -> past_identity (bump st).
+  Proof. intros (Hn & Hi & Hm). unfold past_identity, bump. cbn. rewrite Hi. auto. Qed.
+  Lemma mod_add_tag n v st : mod_identity st -> mod_identity (add_tag n v st).
+  Proof. intros H. unfold add_tag. destruct (forallb is_digit v); [exact H|]. destruct (tag_scope st); exact H. Qed.
+  Lemma mod_add_prop k v st : mod_identity st -> mod_identity (add_prop k v st).
+  Proof. intros H. unfold add_prop. destruct (s_in_quoted st); [exact H|]. destruct (prop_scope st); exact H. Qed.
+
+  Lemma walk_id_tok_mod l ty s st ns f :
+    mod_identity st -> is_zid s = false ->
+    walk (t_id l (Tok ty s)) st (ns, f) = Ok (bump st, (ns, f)).
+  Proof.
+    intros Hp Hz. pose proof (text_id l ty s) as E. unfold t_id, nd in *.
+    rewrite walk_node. unfold FileListener.enter, FileListener.exit_. cls.
+    rewrite E. rewrite enter_id_mod by assumption. cbn [bind walk_list]. inert. tokstep. cbn [bind fst snd].
+    now rewrite push_none.
+  Qed.
+
+  Lemma walk_id_date_mod l s st ns f :
+    mod_identity st -> body_mode st -> is_zid s = false ->
+    walk (t_id l (nd "date" l [tk "DATE" s])) st (ns, f) = Ok (bump st, (ns, f)).
+  Proof.
+    intros Hp Hb Hz.
+    assert (E : text_of (t_id l (nd "date" l [tk "DATE" s])) = s) by (cbn; now rewrite !app_nil_r).
+    unfold t_id, nd, tk in *. rewrite walk_node. unfold FileListener.enter at 1, FileListener.exit_ at 1. cls.
+    rewrite E. rewrite enter_id_mod by assumption. cbn [bind walk_list]. inert.
+    rewrite walk_node. unfold FileListener.enter, FileListener.exit_. cls.
+    erewrite enter_date_past; [|reflexivity|apply body_bump; exact Hb|].
+    2:{ destruct Hp as (Hn & Hi & Hm). unfold bump. cbn. rewrite Hi. apply le_n. }
+    cbn [bind walk_list]. tokstep. rewrite push_none. cbn [bind fst snd]. now rewrite push_none.
+  Qed.
+
+  Lemma walk_word_mod l w st ns f :
+    mod_identity st -> body_mode st -> word_not_zidb w = true ->
+    walk (tree_of_word l w) st (ns, f) = Ok (wfx w st, (ns, f)).
+  Proof.
+    intros Hm Hb Hz. destruct w as [s|k s|s|k v|s|z]; cbn [word_not_zidb] in Hz; try apply negb_true_iff in Hz;
+      [| | | | |discriminate]; cbn [tree_of_word wfx]; apply walk_uw.
+    - unfold nd, tk. inert. rewrite walk_id_tok_mod by assumption. reflexivity.
+    - unfold nd at 1. inert.
+      destruct k; cbn [tag_rule tag_tok tag_name]; unfold nd, tk, tks; rewrite walk_node;
+        unfold FileListener.enter, FileListener.exit_; cls; unfold tag1, child1_text;
+        rewrite text_id; cbn [bind walk_list app]; tokstep;
+        (rewrite walk_id_tok_mod by (try apply mod_add_tag; assumption)); cbn [bind fst snd]; now rewrite push_none.
+    - unfold nd, tk, tks. rewrite walk_node. unfold FileListener.enter, FileListener.exit_. cls.
+      unfold tag1, child1_text.
+      replace (text_of (Node (S "id_group") l [t_id l (Tok (S "ID") s)])) with s by (cbn; now rewrite !app_nil_r).
+      cbn [bind walk_list app]. tokstep. inert.
+      rewrite walk_id_tok_mod by (try apply mod_add_tag; assumption). cbn [bind fst snd]. tokstep. now rewrite push_none.
+    - unfold nd at 1. inert. unfold nd, tk, tks. rewrite walk_node. unfold FileListener.enter, FileListener.exit_. cls.
+      replace (child_rule "id" [t_id l (Tok (S "ID") k); Tok (S "COLON") (S ":"); Tok (S "COLON") (S ":");
+                               Node (S "simple_prop_value") l [t_id l (Tok (S "ID") v)]])
+        with (Some (t_id l (Tok (S "ID") k))) by reflexivity.
+      replace (child_rule "simple_prop_value" [t_id l (Tok (S "ID") k); Tok (S "COLON") (S ":"); Tok (S "COLON") (S ":");
+                               Node (S "simple_prop_value") l [t_id l (Tok (S "ID") v)]])
+        with (Some (Node (S "simple_prop_value") l [t_id l (Tok (S "ID") v)])) by reflexivity.
+      rewrite text_id.
+      replace (text_of (Node (S "simple_prop_value") l [t_id l (Tok (S "ID") v)])) with v by (cbn; now rewrite !app_nil_r).
+      cbn [bind walk_list].
+      rewrite walk_id_tok_mod by (try apply mod_add_prop; assumption). cbn [bind fst snd]. tokstep. tokstep. inert.
+      rewrite walk_id_tok by (apply past_after_mod, mod_add_prop; exact Hm). cbn [bind fst snd]. now rewrite push_none.
+    - unfold nd at 1. inert. rewrite walk_id_date_mod by assumption. reflexivity.
+  Qed.
+
+  Lemma past_wfx_mod w st : mod_identity st -> past_identity (wfx w st).
+  Proof.
+    intros H. destruct w; cbn [wfx]; try (apply past_after_mod; try apply mod_add_tag; try apply mod_add_prop; exact H).
+    apply past_bump, past_after_mod, mod_add_prop, H.
+  Qed.
+
+  Lemma walk_words_ready l ws st ns f :
+    ready st ws -> body_mode st ->
+    walk_list (map (tree_of_word l) ws) st (ns, f) = Ok (wsfx ws st, (ns, f)).
+  Proof.
+    intros [Hp|(Hm & Hw)] Hb; [now apply walk_words|].
+    destruct ws as [|w ws]; [reflexivity|].
+    cbn [map walk_list]. rewrite walk_word_mod by assumption. cbn [bind fst snd].
+    change (wsfx (w :: ws) st) with (wsfx ws (wfx w st)).
+    apply walk_words; [apply past_wfx_mod; exact Hm|apply body_wfx; exact Hb].
+  Qed.
 
   Lemma walk_id_node l inner st st1 r ns f :
     enter_id (text_of (t_id l inner)) st = Ok st1 ->
@@ -230,24 +323,24 @@ Section Walk.
   Lemma text_id_node l r ty s : text_of (t_id l (Node r l [Tok ty s])) = s.
   Proof. cbn. now rewrite !app_nil_r. Qed.
 
-  Lemma walk_ident l i st ns f :
-    fresh_note st -> body_mode st -> valid_ident i ->
+  Lemma walk_ident l i ws st ns f :
+    fresh_note st -> body_mode st -> valid_ident i -> after_mod_ok i ws ->
     walk_list (map (tree_of_word l) (ident_words i)) st (ns, f) = Ok (ident_fx i st, (ns, f)) /\
-    past_identity (ident_fx i st) /\ body_mode (ident_fx i st).
+    ready (ident_fx i st) ws /\ body_mode (ident_fx i st).
   Proof.
-    intros (Hn & Hi & Hm & Hz & Hd) Hb V. destruct i as [s|z|m z|d]; cbn [ident_words map walk_list tree_of_word ident_fx].
+    intros (Hn & Hi & Hm & Hz & Hd) Hb V A. destruct i as [s|z|m z|d|m]; cbn [ident_words map walk_list tree_of_word ident_fx].
     - destruct V as (V1 & V2). split; [|split].
       + erewrite walk_uw; [cbn [bind fst snd]; reflexivity|]. unfold nd, tk. inert.
         erewrite walk_id_node; [reflexivity| |apply walk_tok].
         rewrite text_id. unfold enter_id. rewrite Hn, Hi, V1, V2. cbn. unfold bump. now rewrite Hi.
-      + unfold past_identity, bump. cbn. rewrite Hi. auto.
+      + left. unfold past_identity, bump. cbn. rewrite Hi. auto.
       + exact Hb.
     - destruct V as (V1 & V2 & d & V3). split; [|split].
       + erewrite walk_uw; [cbn [bind fst snd]; reflexivity|]. unfold nd at 1. inert.
         erewrite walk_id_node; [reflexivity| |unfold nd, tk; inert; tokstep; reflexivity].
         unfold nd, tk. rewrite text_id_node. unfold enter_id. rewrite Hn, Hi, V1, V2. cbn.
         unfold PageSyntax.date_of_short. rewrite V3. unfold zid_day in V3. cbn in V3. rewrite V3. reflexivity.
-      + unfold past_identity. cbn. auto.
+      + left. unfold past_identity. cbn. auto.
       + exact Hb.
     - destruct V as (V1 & (dm & V2) & V3 & d & V4). split; [|split].
       + erewrite walk_uw; [|unfold nd, tk; inert;
@@ -258,7 +351,7 @@ Section Walk.
         erewrite walk_id_node; [reflexivity| |unfold nd, tk; inert; tokstep; reflexivity].
         unfold nd, tk. rewrite text_id_node. unfold enter_id. cbn. rewrite Hn. cbn. rewrite V3. cbn.
         unfold PageSyntax.date_of_short. rewrite V2, V4. unfold zid_day in V4. cbn in V4. rewrite V4. reflexivity.
-      + unfold past_identity. cbn. auto.
+      + left. unfold past_identity. cbn. auto.
       + exact Hb.
     - destruct V as (V1 & V2 & dd & V3). split; [|split].
       + erewrite walk_uw; [cbn [bind fst snd]; reflexivity|]. unfold nd at 1. inert.
@@ -270,7 +363,16 @@ Section Walk.
           cbn [text_of]. cbn [s_in_note s_ids s_dates set get]. 
           unfold set_date. rewrite Hn, Hd. cbn [andb Nat.eqb is_none]. rewrite V3. cbn [bind walk_list].
           tokstep. rewrite push_none. unfold PageSyntax.date_of_long. rewrite V3. reflexivity.
-      + unfold past_identity. cbn. auto.
+      + left. unfold past_identity. cbn. auto.
+      + exact Hb.
+    - destruct V as (V1 & dm & V2). split; [|split].
+      + erewrite walk_uw; [cbn [bind fst snd]; reflexivity|]. unfold nd, tk. inert.
+        erewrite walk_id_node; [reflexivity| |apply walk_tok].
+        rewrite text_id. unfold enter_id. rewrite Hn, Hi, V1. cbn. rewrite V2. cbn.
+        unfold PageSyntax.date_of_short. rewrite V2. reflexivity.
+      + right. split.
+        * unfold mod_identity. cbn. repeat split; [exact Hn|discriminate].
+        * unfold after_mod_ok, after_mod_okb in A. destruct ws; [exact I|exact A].
       + exact Hb.
   Qed.
 
@@ -384,6 +486,7 @@ Section Walk.
       | IModZid m z => mkX (Some z) 2 (x_t5 x) (x_p5 x) (Some (date_of_short (zid_day z))) (Some (date_of_short m))
                            (x_in x) (x_prio x) (x_status x)
       | ILong d => mkX (x_zid x) 1 (x_t5 x) (x_p5 x) (Some (date_of_long d)) (x_mod x) (x_in x) (x_prio x) (x_status x)
+      | IMod m => mkX (x_zid x) 1 (x_t5 x) (x_p5 x) (x_d5 x) (Some (date_of_short m)) (x_in x) (x_prio x) (x_status x)
       end.
     Lemma ident_fx_canon i x : ident_fx i (cn x) = cn (ix i x).
     Proof.
@@ -429,7 +532,7 @@ Section Walk.
   Definition no_scan (body : str) : Prop :=
     contains (S ":: ") body = false /\ contains (S "::" ++ [nlc]) body = false.
   Definition valid_item (it : item) : Prop :=
-    valid_ident (i_ident it) /\
+    valid_ident (i_ident it) /\ after_mod_ok (i_ident it) (i_words it) /\
     strip (words_text (item_words it)) <> [] /\ no_scan (strip (words_text (item_words it))).
 
   (* the state between items of a block *)
@@ -463,19 +566,20 @@ Section Walk.
   Lemma walk_body l it st0 ot op od x0 ns f :
     body_mode st0 -> s_in_head st0 = false ->
     length ot = 5%nat -> length op = 5%nat -> length od = 5%nat ->
-    valid_ident (i_ident it) ->
+    valid_ident (i_ident it) -> after_mod_ok (i_ident it) (i_words it) ->
     x0 = x_reset true (x_prio x0) (x_status x0) ->
     walk (nd "note_body" l [tree_of_words l (item_words it)]) (canon st0 ot op od x0) (ns, f) =
     Ok (canon st0 ot op od (wxs (i_words it) (ix (i_ident it) x0)), (ns, f)).
   Proof.
-    intros Hb Hh L1 L2 L3 V Hx. unfold tree_of_words, nd. inert. inert. unfold item_words.
+    intros Hb Hh L1 L2 L3 V A Hx. unfold tree_of_words, nd. inert. inert. unfold item_words.
     rewrite map_app, walk_list_app.
-    destruct (walk_ident l (i_ident it) (canon st0 ot op od x0) ns f) as (W & P & B).
+    destruct (walk_ident l (i_ident it) (i_words it) (canon st0 ot op od x0) ns f) as (W & P & B).
     { rewrite Hx. apply fresh_canon. exact L3. }
     { exact Hb. }
     { exact V. }
+    { exact A. }
     rewrite W. cbn [bind fst snd].
-    rewrite walk_words by assumption. cbn [bind fst snd].
+    rewrite walk_words_ready by assumption. cbn [bind fst snd].
     rewrite (ident_fx_canon st0 ot op od L3).
     rewrite (wsfx_canon st0 ot op od Hb Hh L1 L2); [reflexivity|].
     rewrite ix_in, Hx. reflexivity.
@@ -535,7 +639,7 @@ Section Walk.
     exists x', walk (tree_of_item l it) st (ns, f) =
                Ok (canon st ot op od (x_close x'), (spec_note today ot op od key l it :: ns, f)).
   Proof.
-    cbv zeta. intros [Hb Hh Hn (t5 & Ht) (p5 & Hp) (d5 & Hd) Hk Hpr Hst] (V & Hne & Hns).
+    cbv zeta. intros [Hb Hh Hn (t5 & Ht) (p5 & Hp) (d5 & Hd) Hk Hpr Hst] (V & A & Hne & Hns).
     set (ot := [t0; t1; t2; t3; t4]). set (op := [p0; p1; p2; p3; p4]). set (od := [d0; d1; d2; d3; d4]).
     assert (L1 : length ot = 5%nat) by reflexivity. assert (L2 : length op = 5%nat) by reflexivity.
     assert (L3 : length od = 5%nat) by reflexivity.
@@ -1595,20 +1699,20 @@ Proof. destruct r; try discriminate. eauto. Qed.
 
 Lemma valid_identb_sound i : valid_identb i = true -> valid_ident i.
 Proof.
-  destruct i as [s|z|m z|d]; cbn [valid_identb valid_ident]; intros H;
+  destruct i as [s|z|m z|d|m]; cbn [valid_identb valid_ident]; intros H;
     repeat (apply andb_prop in H; destruct H as [H ?]);
     repeat match goal with
            | H : negb _ = true |- _ => apply negb_true_iff in H
            | H : is_ok _ = true |- _ => apply is_ok_ex in H
            end; repeat match goal with |- _ /\ _ => split end; try assumption.
-  unfold is_short_date_spec. apply andb_true_intro. split; assumption.
+  all: unfold is_short_date_spec; apply andb_true_intro; split; assumption.
 Qed.
 Lemma valid_itemb_sound it : valid_itemb it = true -> valid_item it.
 Proof.
   unfold valid_itemb, valid_item, no_scan. intros H.
   repeat (apply andb_prop in H; destruct H as [H ?]).
   repeat match goal with H : negb _ = true |- _ => apply negb_true_iff in H end.
-  split; [apply valid_identb_sound; assumption|]. split; [|split; assumption].
+  split; [apply valid_identb_sound; assumption|]. split; [unfold after_mod_ok; assumption|]. split; [|split; assumption].
   destruct (strip (words_text (item_words it))); [discriminate|congruence].
 Qed.
 Lemma valid_mwordb_sound w : valid_mwordb w = true -> valid_mword w.
